@@ -3,6 +3,7 @@
 package main
 
 import (
+	"go/types"
 	"encoding/json"
 	"flag"
 	"fmt"
@@ -15,6 +16,7 @@ import (
 
 	"govc/internal/smt"
 	"govc/internal/replay"
+	"govc/internal/spec"
 	"govc/internal/vc"
 )
 
@@ -38,6 +40,7 @@ func main() {
 	work := flag.String("work", "", "scratch directory (default: mktemp under $TMPDIR)")
 	replayDir := flag.String("replaydir", "/verif/replay", "where violation records go")
 	findingsFile := flag.String("findings", "/verif/known_findings.json", "known findings")
+	sweep := flag.Bool("sweep", false, "finding aid, not a check: run every function WITHOUT a contract under a synthesised safety-only contract (non-nil pointer parameters, assigns everything) and list the bounds / division / conversion obligations that do not discharge")
 	noReplay := flag.Bool("noreplay", false, "do not look for concrete failing inputs of failed obligations")
 	list := flag.Bool("list", false, "list functions under contract and their tags")
 	timeout := flag.Int("timeout", 0, "per-obligation timeout in seconds (default 10 quick / 60 thorough)")
@@ -87,6 +90,10 @@ func main() {
 		opt.TimeoutS = *timeout
 	}
 
+	if *sweep {
+		runSweep(p, opt)
+		return
+	}
 	// select functions
 	var fns []string
 	for _, n := range p.FunctionsUnderContract() {
@@ -423,4 +430,65 @@ func writeReplay(dir, prop string, f vc.OblResult, work string) string {
 	data, _ := json.MarshalIndent(rec, "", " ")
 	os.WriteFile(path, data, 0o644)
 	return path
+}
+
+// runSweep: a zero-annotation no-panic sweep (finding aid). Every function of
+// the verified packages that has no contract gets a synthesised one: pointer,
+// interface, map, func and slice-of-pointer parameters are non-nil, everything
+// may be assigned, nothing is ensured. Only obligations about indexing,
+// slicing, division and make() sizes are listed: nil dereferences of fields
+// would need real preconditions.
+func runSweep(p *vc.Program, opt vc.Options) {
+	var names []string
+	for n, fn := range p.Funcs {
+		if _, has := p.Contract[n]; has {
+			continue
+		}
+		if fn.Blocks == nil || strings.HasPrefix(n, "init") {
+			continue
+		}
+		names = append(names, n)
+	}
+	sort.Strings(names)
+	total, bad := 0, 0
+	for _, n := range names {
+		fn := p.Funcs[n]
+		cs := &spec.FuncSpec{Name: n, HasAssigns: true, Assigns: []spec.Expr{&spec.Ident{Name: "everything"}}}
+		for i, prm := range fn.Params {
+			pn := fmt.Sprintf("p%d", i)
+			if prm.Name() != "" && prm.Name() != "_" {
+				pn = prm.Name()
+			}
+			cs.Params = append(cs.Params, pn)
+			switch prm.Type().Underlying().(type) {
+			case *types.Pointer, *types.Interface, *types.Map, *types.Signature:
+				cs.Requires = append(cs.Requires, spec.Clause{E: &spec.Binary{Op: "!=", X: &spec.Ident{Name: pn}, Y: &spec.NilLit{}}, Text: pn + " != nil"})
+			}
+		}
+		for i := 0; i < fn.Signature.Results().Len(); i++ {
+			cs.Results = append(cs.Results, fmt.Sprintf("r%d", i))
+		}
+		p.Contract[n] = cs
+		rep := vc.VerifyFunction(p, n, opt)
+		delete(p.Contract, n)
+		if rep.Err != "" {
+			fmt.Printf("SWEEP skip %s: %s\n", n, firstLine(rep.Err, ""))
+			continue
+		}
+		for _, r := range rep.Results {
+			if r.Vacuity || !strings.HasPrefix(r.Kind, "safety") {
+				continue
+			}
+			k := strings.TrimPrefix(r.Kind, "safety.")
+			if k == "nil" || k == "overflow" || k == "truncation" || k == "typed-nil" || k == "nil-map" || k == "ownership" {
+				continue
+			}
+			total++
+			if r.Status != "proved" {
+				bad++
+				fmt.Printf("SWEEP open %s (%s)\n", r.Name, r.Raw)
+			}
+		}
+	}
+	fmt.Printf("SWEEP: %d functions without contract, %d indexing/division obligations, %d not discharged without preconditions\n", len(names), total, bad)
 }
